@@ -1,4 +1,3 @@
 SPECIFICATION TraceSpec
 POSTCONDITION TraceAccepted
-INVARIANTS DepsFinished
 CHECK_DEADLOCK FALSE
